@@ -446,6 +446,10 @@ class AbstractHasAxes(AbstractHasMetadata):
 class OpMixin(object):
     """ overload basic operations
     """
+    # let numpy scalars and arrays on the left-hand side defer to the reflected operators below
+    # (np.float64(2) * a would otherwise return a bare numpy array)
+    __array_priority__ = 100
+
     def _unary_op(self, func):
         raise NotImplementedError()
     def _binary_op(self, func, other):
